@@ -88,12 +88,14 @@ InFlightSigs == UNION {DOMAIN r.m : r \in subs}
 (* stated with the property, P + L + D < 0.2*I - Buffer together *)
 (* with cool + Buffer <= 0.8*I and the fixed P + L <= UOff, implies it.   *)
 (***************************************************************************)
-TimingOK(iv) ==
-    /\ Max2(par.cool + Buffer, (iv * (Start + Offset - 1)) \div 100) + (par.P - 1) + par.L <= iv
-    /\ par.P + par.L <= UOff
-    /\ par.D <= Buffer
-    /\ par.L <= par.disc /\ par.D <= par.disc
-    /\ par.P + par.L + par.D <= par.grace
+TimingOKp(p, iv) ==
+    /\ Max2(p.cool + Buffer, (iv * (Start + Offset - 1)) \div 100) + (p.P - 1) + p.L <= iv
+    /\ p.P + p.L <= UOff
+    /\ p.D <= Buffer
+    /\ p.L <= p.disc /\ p.D <= p.disc
+    /\ p.P + p.L + p.D <= p.grace
+
+TimingOK(iv) == TimingOKp(par, iv)
 
 StatedAssumption(iv) ==
     /\ (par.P + par.L + par.D) * 10 < 2 * iv - 10 * Buffer
@@ -140,7 +142,7 @@ Decision == {s \in Cur \ pending : Due(s)}
 
 Poll ==
     /\ lastPoll' = clk
-    /\ waited' = [s \in Sig |-> 0]
+    /\ waited' = TLCEval([s \in Sig |-> 0])
     /\ IF ~active
        THEN \* QueryValidValidator: not required to feed prices
             /\ out' = [stage |-> "notValid", m |-> <<>>]
@@ -150,7 +152,7 @@ Poll ==
             /\ calm' = (calm /\ \A s \in Cur \ pending : svc[s].st # "missing")
             /\ UNCHANGED <<pending, subs, nsub>>
        ELSE LET D == Decision
-                m == [s \in D |-> New(s)]
+                m == TLCEval([s \in D |-> New(s)])   \* TLCEval: store an explicit function, not a lazy one
             IN /\ pending' = pending \cup D
                /\ nsub' = nsub + 1
                /\ subs' = subs \cup {[id |-> nsub + 1, m |-> m, ts |-> clk, st |-> "bcast", try |-> 1, res |-> "none"]}
@@ -216,8 +218,8 @@ Acc(e, vpc, t) ==
     /\ \A s \in DOMAIN e.m : vpc[s].st = "none" \/ t >= vpc[s].ts + par.cool
 
 Stored(e, vpc, t, hh) ==
-    [s \in Sig |-> IF s \in DOMAIN e.m THEN [st |-> e.m[s].st, price |-> e.m[s].price, ts |-> t, bh |-> hh]
-                   ELSE IF s \in Cur THEN vpc[s] ELSE NoVP]
+    TLCEval([s \in Sig |-> IF s \in DOMAIN e.m THEN [st |-> e.m[s].st, price |-> e.m[s].price, ts |-> t, bh |-> hh]
+                           ELSE IF s \in Cur THEN vpc[s] ELSE NoVP])
 
 RECURSIVE Deliver(_, _, _, _)
 Deliver(q, vpc, t, hh) ==
@@ -255,7 +257,7 @@ Block(d, k) ==
     /\ \A s \in Sig \ r.touched : (r.touched # {} /\ vp[s].st # "none" /\ vp[s].ts = t) => slot[s] = k
     /\ bt' = t /\ h' = hh
     /\ vp' = r.vp
-    /\ slot' = [s \in Sig |-> IF r.vp[s].st = "none" THEN 0 ELSE IF s \in r.touched THEN k ELSE slot[s]]
+    /\ slot' = TLCEval([s \in Sig |-> IF r.vp[s].st = "none" THEN 0 ELSE IF s \in r.touched THEN k ELSE slot[s]])
     /\ active' = (active /\ ~hit)
     /\ since' = IF hit THEN t ELSE since
     /\ mempool' = <<>>
@@ -273,8 +275,8 @@ DueNow(s) == active /\ s \notin pending /\ Due(s)
 TickWith(dt, q) ==
     /\ dt >= 1
     /\ clk' = clk + dt
-    /\ svc' = q
-    /\ waited' = [s \in Sig |-> IF DueNow(s) THEN waited[s] + dt ELSE 0]
+    /\ svc' = TLCEval([s \in Sig |-> q[s]])
+    /\ waited' = TLCEval([s \in Sig |-> IF DueNow(s) THEN waited[s] + dt ELSE 0])
     /\ calm' = (calm /\ clk + dt - lastPoll <= par.P /\ \A r \in subs : clk + dt - r.ts <= par.L)
     /\ out' = "tick"
     /\ UNCHANGED <<bt, h, par, feeds, updT, updH, vp, slot, active, since, pending, subs, nsub, mempool, lastPoll, rejSeen>>
@@ -282,17 +284,17 @@ TickWith(dt, q) ==
 Tick(dt) == TickWith(dt, svc)
 
 Svc(q) ==
-    /\ svc' = q
+    /\ svc' = TLCEval([s \in Sig |-> q[s]])
     /\ out' = "svc"
     /\ UNCHANGED <<clk, bt, h, par, feeds, updT, updH, vp, slot, active, since, pending, subs, nsub, mempool,
                    lastPoll, calm, waited, rejSeen>>
 
 \* SetCurrentFeeds (the end-blocker's periodic update, installed here by the environment)
 SetFeeds(nf) ==
-    /\ feeds' = nf
+    /\ feeds' = TLCEval([s \in Sig |-> nf[s]])
     /\ updT' = bt /\ updH' = h
     /\ calm' = (calm /\ subs = {} /\ mempool = <<>> /\ \A s \in Sig : nf[s].iv > 0 => TimingOK(nf[s].iv))
-    /\ waited' = [s \in Sig |-> 0]
+    /\ waited' = TLCEval([s \in Sig |-> 0])
     /\ out' = "feeds"
     /\ UNCHANGED <<clk, bt, h, par, vp, slot, active, since, svc, pending, subs, nsub, mempool, lastPoll, rejSeen>>
 
